@@ -114,6 +114,14 @@ Theorem C09_release_closes_registered : forall P m s x,
 Proof. exact release_closes_registered. Qed.
 Print Assumptions C09_release_closes_registered.
 
+(* Whatever Close() returns on the streams of s (all patterns of failing closes): nothing of s is
+   retained, and the next run of the same session id gets the fresh stream it registers. *)
+Theorem C09_release_any_close_result : forall (fails : nat -> bool) P m s p x,
+  sm_get (fst (sm_release_f fails P m s)) s p = None /\
+  sm_get (sm_add (fst (sm_release_f fails P m s)) s p x) s p = Some x.
+Proof. exact release_any_close_result. Qed.
+Print Assumptions C09_release_any_close_result.
+
 Theorem C09_streams_ok_model : forall S P X ops st, releases_below S ops = true ->
   streams_ok S P X ops (model_sobs S P X st ops) = true.
 Proof. exact streams_ok_model. Qed.
@@ -125,6 +133,29 @@ Theorem C09_release_ok_sound : forall S P X s b a cb ca, release_ok S P X s b a 
   (forall x, x < X -> nth x ca 0 = nth x cb 0 + count_occ Nat.eq_dec (somes (nth s b [])) x).
 Proof. exact release_ok_sound. Qed.
 Print Assumptions C09_release_ok_sound.
+
+(* Libp2pCommunication over the stream map (sendMessage opens a stream per (session, peer) on first
+   use, CloseSession = ReleaseStreams), for ALL sequences of sends and CloseSessions: no message is
+   ever written to a stream that has been closed - a session id that is started again after
+   CloseSession works on fresh streams -, and every CloseSession closes all the streams the session
+   has used since its last one.  [comm_ok] is the judge of the comm cases; the two soundness
+   statements unfold what it demands. *)
+Theorem C09_comm_ok_model : forall P ops, peers_below P ops = true ->
+  comm_ok [] (fun _ => []) ops (model_cobs P (sm_empty, 0) ops) = true.
+Proof. exact comm_ok_model. Qed.
+Print Assumptions C09_comm_ok_model.
+
+Theorem C09_comm_ok_sound_close : forall cl live s ops xs obs,
+  comm_ok cl live (CClose s :: ops) (CClosed xs :: obs) = true ->
+  (forall x, In x (live s) -> In x xs) /\ comm_ok (xs ++ cl) (upd live s []) ops obs = true.
+Proof. exact comm_ok_sound_close. Qed.
+Print Assumptions C09_comm_ok_sound_close.
+
+Theorem C09_comm_ok_sound_send : forall cl live s p ops x obs,
+  comm_ok cl live (CSend s p :: ops) (CWrote x :: obs) = true ->
+  ~ In x cl /\ comm_ok cl (upd live s (x :: live s)) ops obs = true.
+Proof. exact comm_ok_sound_send. Qed.
+Print Assumptions C09_comm_ok_sound_send.
 
 (* Non-vacuity: three requests for one session id and one for another, a complete schedule: the
    hypotheses of C09_conc_ok_model hold, one request per id runs, two are refused; and a feasible
@@ -138,4 +169,20 @@ Example C09_nonvacuous :
   map (pcs st) [0; 1; 2; 3] = [PRun; PRefused; PRun; PRefused] /\
   feasible Peer CoordinatorSilent = true /\
   summary 2 (session_trace Peer CoordinatorSilent BeforeStart 2) = [1; 1; 1; 0; 1; 1; 1; 0; 1; 0; 0; 1; 1].
+Proof. vm_compute. repeat split. Qed.
+
+(* Non-vacuity of the contention rounds: eight requests for one id on the canonical complete
+   schedule - the first runs, seven are refused. *)
+Example C09_storm_nonvacuous :
+  let st := exec New (fun _ => 0) (storm_sched 8) (init New) in
+  steps_below 8 (storm_sched 8) = true /\ all_decided 8 st = true /\
+  map (pcs st) (seq 0 8) = [PRun; PRefused; PRefused; PRefused; PRefused; PRefused; PRefused; PRefused].
+Proof. vm_compute. repeat split. Qed.
+
+(* Non-vacuity of the comm cases: a session sends to two peers, is closed, sends again (a fresh
+   stream), and is closed again. *)
+Example C09_comm_nonvacuous :
+  let ops := [CSend 0 1; CSend 0 2; CSend 0 1; CClose 0; CSend 0 1; CClose 0] in
+  peers_below 3 ops = true /\
+  model_cobs 3 (sm_empty, 0) ops = [CWrote 0; CWrote 1; CWrote 0; CClosed [0; 1]; CWrote 2; CClosed [2]].
 Proof. vm_compute. repeat split. Qed.
